@@ -113,7 +113,10 @@ func (g *sgen) tgtFor(b *body, src *placeInfo, label string, forceStr bool) stri
 	case x < 12:
 		b.arg("target-digest=none")
 	case x < 16:
-		if g.match != "" {
+		if d512, ok := Canon512[g.match]; ok && g.draw(5, label+"_512") == 0 {
+			dig = d512
+			b.arg("target-digest=matching-sha512")
+		} else if g.match != "" {
 			dig = g.match
 			b.arg("target-digest=%s", g.matchName())
 		} else {
